@@ -675,6 +675,24 @@ theorem posterior_weights_source_eq_model (s : St K) : Gen.Trapezoid.log_posteri
   simp only [Gen.Trapezoid.log_posterior_weights, St.postW, postWeights, trapezoid_source_eq_model, diffs_eq_zipWith,
     List.map_zipWith]
 
+/-- `_NSIntegralState.get_logx_live_points` of the source (volumes of the remaining live points, both expectations) is the
+model's `logxLive` with the shrinkage the source computes (`shrinkOf`); any other value of the lower-cased option leaves
+`logt` unbound (`none`) -/
+theorem logx_live_source_eq_model (ex : K → K) (s : St K) (n : Nat) (isLogt : Bool) :
+    Gen.Trapezoid.get_logx_live_points ex s.w (if isLogt = true then "logt" else "t") n =
+      some (s.logxLive (shrinkOf ex isLogt) n) := by
+  cases isLogt
+  · have h : ("t" : String) ≠ "logt" := by decide
+    have e : (fun (k : Nat) => (1 : K) / (1 + 1 / (k : K))) = shrinkOf ex false := by
+      funext k; simp [shrinkOf]
+    simp only [Gen.Trapezoid.get_logx_live_points, St.logxLive, h, Bool.false_eq_true, if_false, if_true, e]
+  · have e : (fun (k : Nat) => ex (-1 / (k : K))) = shrinkOf ex true := by
+      funext k; simp [shrinkOf]
+    simp only [Gen.Trapezoid.get_logx_live_points, St.logxLive, if_true, e]
+
+example : Gen.Trapezoid.get_logx_live_points (fun x => x) (1 : ℚ) "T" 3 = none := by
+  simp [Gen.Trapezoid.get_logx_live_points]
+
 example : Gen.Trapezoid.log_integrate_log_trap [(0 : ℚ), 2, 2] [1, 1 / 2, 0] = 3 / 2 := by
   norm_num [Gen.Trapezoid.log_integrate_log_trap, sumL]
 
